@@ -264,3 +264,6 @@ NONTRIVIAL = "one obligation per clone arm, per copied field, per mutable enviro
 EXPLANATION += (
     " R3's index-read clause follows the element's source through destructuring and through every reaching definition (a detached copy or the evaluated value itself)."
 )
+EXPLANATION += (
+    ' R6 shares C02-R6 (an array that was read keeps its elements while later operands run).'
+)
